@@ -39,45 +39,45 @@ func (u *UploadMap) Add(upload *requests.Upload, varName string) {
 	})
 }
 
-// function extracts attached files and sets respective variables to null
+// function extracts attached files and sets respective variables to null.
+// The variables are rebuilt rather than edited in place: nested objects and lists
+// belong to the client request and are shared with the sub-requests to other services
 func extractFiles(input *requests.Request) *UploadMap {
 	uploadMap := &UploadMap{}
 	if input == nil {
 		return uploadMap
 	}
-	for varName, value := range input.Variables {
-		uploadMap.extract(value, varName)
-		// if the value was an upload, set the respective Request variable to null
-		if _, ok := value.(*requests.Upload); ok {
-			input.Variables[varName] = nil
-		}
+	if input.Variables == nil {
+		return uploadMap
 	}
+	variables := make(map[string]interface{}, len(input.Variables))
+	for varName, value := range input.Variables {
+		variables[varName] = uploadMap.extract(value, varName)
+	}
+	input.Variables = variables
 	return uploadMap
 }
 
-func (u *UploadMap) extract(value interface{}, path string) {
+// extract registers the uploads found below value and returns a copy of value with null in their place
+func (u *UploadMap) extract(value interface{}, path string) interface{} {
 	switch val := value.(type) {
 	case *requests.Upload: // Upload found
 		u.Add(val, path)
+		return nil
 	case map[string]interface{}:
+		res := make(map[string]interface{}, len(val))
 		for k, v := range val {
-			u.extract(v, fmt.Sprintf("%s.%s", path, k))
-			// if the value was an upload, set the respective QueryInput variable to null
-			switch v.(type) {
-			case *requests.Upload, requests.Upload:
-				val[k] = nil
-			}
+			res[k] = u.extract(v, fmt.Sprintf("%s.%s", path, k))
 		}
+		return res
 	case []interface{}:
+		res := make([]interface{}, len(val))
 		for i, v := range val {
-			u.extract(v, fmt.Sprintf("%s.%d", path, i))
-			// if the value was an upload, set the respective QueryInput variable to null
-			switch v.(type) {
-			case *requests.Upload, requests.Upload:
-				val[i] = nil
-			}
+			res[i] = u.extract(v, fmt.Sprintf("%s.%d", path, i))
 		}
+		return res
 	}
+	return value
 }
 
 // uploadReader returns an independent reader when the file supports random access:
